@@ -30,6 +30,7 @@ from typing import Any
 
 from happysimulator.core.entity import Entity
 from happysimulator.core.event import Event
+from happysimulator.core.sim_future import SimFuture
 
 
 class ConsistencyLevel(Enum):
@@ -144,6 +145,11 @@ class ReplicatedStore(Entity):
         # Validate consistency levels
         self._validate_consistency()
 
+        # Last mutation (put/delete) of each key started on each replica. Puts and
+        # deletes have different latencies, so without this a later mutation could
+        # overtake an earlier one and the replicas would apply them in different orders.
+        self._last_mutation: dict[tuple[int, str], SimFuture] = {}
+
         # Statistics
         self._reads = 0
         self._writes = 0
@@ -214,6 +220,25 @@ class ReplicatedStore(Entity):
             return self.quorum_size
         # ALL
         return len(self._replicas)
+
+    def _mutation_turn(self, index: int, key: str) -> Generator[SimFuture, None, SimFuture]:
+        """Wait until the previous mutation of ``key`` has landed on replica ``index``.
+
+        Returns the future to resolve (via ``_mutation_done``) once this mutation
+        has landed there, so every replica applies mutations of a key in one order.
+        """
+        previous = self._last_mutation.get((index, key))
+        mine = SimFuture()
+        self._last_mutation[(index, key)] = mine
+        if previous is not None and not previous.is_resolved:
+            yield previous
+        return mine
+
+    def _mutation_done(self, index: int, key: str, mine: SimFuture) -> None:
+        """Mark this mutation of ``key`` as landed on replica ``index``."""
+        if self._last_mutation.get((index, key)) is mine:
+            del self._last_mutation[(index, key)]
+        mine.resolve()
 
     def get(self, key: str) -> Generator[float, None, Any | None]:
         """Get a value with configured read consistency.
@@ -302,7 +327,8 @@ class ReplicatedStore(Entity):
         acks = 0
         latencies: list[float] = []
 
-        for replica in self._replicas:
+        for index, replica in enumerate(self._replicas):
+            turn = yield from self._mutation_turn(index, key)
             try:
                 gen = replica.put(key, value)
                 replica_latency = 0.0
@@ -313,6 +339,8 @@ class ReplicatedStore(Entity):
                         yield delay
                 except StopIteration:
                     pass
+                finally:
+                    self._mutation_done(index, key, turn)
 
                 latencies.append(replica_latency)
                 acks += 1
@@ -351,7 +379,8 @@ class ReplicatedStore(Entity):
         acks = 0
         existed = False
 
-        for replica in self._replicas:
+        for index, replica in enumerate(self._replicas):
+            turn = yield from self._mutation_turn(index, key)
             try:
                 gen = replica.delete(key)
                 result = None
@@ -361,6 +390,8 @@ class ReplicatedStore(Entity):
                         yield delay
                 except StopIteration as e:
                     result = e.value
+                finally:
+                    self._mutation_done(index, key, turn)
 
                 acks += 1
                 if result:
